@@ -26,7 +26,7 @@ RULE = ("one case = one collider (9 types implementing update_pose, 25% wrapped 
         "(box vertices, mesh start vertex) are warm. non-trivial = history length >= 2; distinct = distinct (spec, poses) hashes")
 ASSUMPTIONS = ["'same shape constructed directly at the pose': centre = pose[:3,3]; Disk normal = pose[:3,2]; Ellipse axes = pose[:3,:2].T",
                "support points of meshes are compared through their projection on the direction (ties)"]
-MIN_EVENTS = {"updates": 3000, "observable_comparisons": 40000, "stack_poses": 500, "tm_poses": 300, "inplace_poses": 500}
+MIN_EVENTS = {"updates": 3000, "observable_comparisons": 40000, "stack_poses": 500, "tm_poses": 300, "inplace_poses": 500, "caller_array_checks": 800}
 
 
 def cases(tier):
@@ -55,6 +55,23 @@ def run_case(rng, idx, tier):
     spec = gen.rand_spec(rng, kind, margin_p=0.25, far_ok=False)
     col = gen.build(spec)
     probe_spec = gen.rand_spec(rng, far_ok=False)
+    # caller-owned arrays: 40% of the colliders are constructed from a pose / parameter arrays that the caller keeps and
+    # from which he also builds a second collider (the usual `start = np.eye(4)` pattern); neither those arrays nor the
+    # sibling may change when `col` is moved
+    shared = None; sib = None; shared_snap = None
+    if rng.random() < 0.4:
+        def own(sp):
+            sp = dict(sp)
+            if sp["kind"] == "margin":
+                sp["base"] = own(sp["base"]); return sp
+            for k_ in ("T", "c", "n", "axes", "radii", "size", "V"):
+                if k_ in sp:
+                    sp[k_] = np.array(sp[k_], dtype=float, order="C")
+            return sp
+        shared = own(spec)
+        shared_snap = own(shared)
+        col = gen.build(shared, copy=False)
+        sib = gen.build(shared, copy=False)
     n = int(rng.integers(1, 11))
     viol = []; worst = {}
     ev = {"updates": 0, "observable_comparisons": 0, "stack_poses": 0, "tm_poses": 0, "fresh_poses": 0}
@@ -131,6 +148,32 @@ def run_case(rng, idx, tier):
                              "msg": "%s after update_pose (%s pose, step %d of %s): %s differs from a fresh object by %.3g*L" % (
                                  name, how, i, hist, what, e)})
 
+        if shared is not None:
+            ev["caller_array_checks"] = ev.get("caller_array_checks", 0) + 1
+            b0 = shared["base"] if shared["kind"] == "margin" else shared
+            s0 = shared_snap["base"] if shared_snap["kind"] == "margin" else shared_snap
+            for k_ in ("T", "c", "n", "axes", "radii", "size"):
+                if k_ in b0 and not np.array_equal(b0[k_], s0[k_]):
+                    viol.append({"key": dict(key0, kind="caller-array-modified", where="constructor argument " + k_), "err": float(np.abs(b0[k_] - s0[k_]).max()),
+                                 "msg": "%s.update_pose (%s pose, step %d) overwrote the array the caller passed to the constructor (%s changed by %.3g)" % (
+                                     name, how, i, k_, float(np.abs(b0[k_] - s0[k_]).max()))})
+                    b0[k_][...] = s0[k_]
+            try:
+                osib = O.oracle(shared_snap)
+                es = max(float(np.abs(np.asarray(sib.center(), float) - osib.center()).max()),
+                         float(np.abs(np.asarray(sib.aabb(), float) - np.asarray(gen.build(shared_snap).aabb(), float)).max())) / L
+                if es > TOL:
+                    viol.append({"key": dict(key0, kind="sibling-moved", where="center/aabb"), "err": es,
+                                 "msg": "a second %s built from the same start arrays moved by %.3g*L when the first one was given a new pose (%s pose, step %d)" % (name, es, how, i)})
+                    sib = gen.build(shared, copy=False)
+            except Exception as e:  # noqa: BLE001
+                viol.append({"key": dict(key0, kind="exception", where="sibling", exc=type(e).__name__), "err": None, "msg": "sibling query raised %s" % type(e).__name__})
+        if how == "stack":
+            bad = [j for j in range(n) if not np.array_equal(stack[j], poses[j])]
+            if bad:
+                viol.append({"key": dict(key0, kind="caller-array-modified", where="pose stack"), "err": None,
+                             "msg": "%s.update_pose changed the caller's pose stack (matrices %s)" % (name, bad[:4])})
+                stack[:] = np.array(poses)
         frames = [Texp[:3, :3]]
         for d in gen.mesh_vertex_dirs(espec)[:1] + gen.rand_dirs(rng, 6, frames):
             if kind == "mesh":
